@@ -79,6 +79,10 @@ def check_case(case, ctx):
         req = req[:case["gl"]] + ["grid_level"] + req[case["gl"]:]
         ctx.label("grid_level-in-the-list")
     ctx.label(*labs, "pos:" + pcls, f"normal:{cn}", "big" if case["big"] else "small", "cli" if case.get("cli") else "api")
+    if plot.payload.get("r_specials"):
+        ctx.label("R-with-inf/huge/denormal-samples")
+    if plot.payload.get("k_inf"):
+        ctx.label("K-with-infinite-columns")
     lo_n = plot.geo_lo[cn]
     kk0 = (p - lo_n) / plot.dx[0][cn] - 0.5
     ctx.nontrivial(L >= 1 and abs(kk0 - round(kk0)) > 1e-9)
@@ -102,6 +106,27 @@ def check_case(case, ctx):
         finally:
             pools.set_schedule(None)
     v = []
+    if not case.get("cli"):
+        # history: the second and third plotfile-format slices written by one object equal the first slice of a fresh one
+        from ..harness import tree_files
+        ctx.label("history:reused-object")
+        pools.set_schedule(None if case["serial"] else case["sched"])
+        try:
+            with poisoned_empty(POISONS[0]):
+                m = qcall(Mandoline, "src", fields=list(req), limit_level=limit, serial=case["serial"], verbose=0)
+                for name in ("h1", "h2", "h3"):
+                    qcall(m.slice, normal=cn, pos=p, fformat="plotfile", outfile=name)
+            first = tree_files("out0")
+            for name in ("h2", "h3"):
+                if tree_files(name) != first:
+                    v.append(f"slice #{name[1]} written by one Mandoline object differs from the slice a fresh object writes "
+                             f"(normal={cn} pos={p!r} class {pcls} limit={limit} serial={case['serial']})")
+                    break
+        except Exception as e:
+            v.append(f"re-using one Mandoline object for plotfile-format slices raised {type(e).__name__}: {e} "
+                     f"(normal={cn} pos={p!r} limit={limit} serial={case['serial']})")
+        finally:
+            pools.set_schedule(None)
     v += common.taste_accepts("out0")
     o, msgs = common.read_output("out0")
     if o is None:
@@ -201,14 +226,22 @@ def check_case(case, ctx):
                         exp = np.full(g.shape, pp["alpha"] + pp["beta"] * p)
                     t = tolA
                 elif name == "K":
-                    exp = slicegen.k_pattern(l, lo2, hi2)
-                    t = 1e-11 * np.abs(exp)
+                    exp = slicegen.k_pattern(l, lo2, hi2, pp.get("k_inf"))
+                    with np.errstate(all="ignore"):
+                        t = np.where(np.isfinite(exp), 1e-11 * np.abs(exp), 0.0)
                 else:
                     mask = two_sided
-                    exp = S0[j][sl] * (1.0 - w1) + S1[j][sl] * w1 if k0 != k1 else S0[j][sl]
-                    t = 1e-9 * np.maximum(np.abs(exp), 1.0)
-                with np.errstate(invalid="ignore"):
-                    bad = mask & ~(np.abs(g - exp) <= t)
+                    with np.errstate(all="ignore"):
+                        exp = S0[j][sl] * (1.0 - w1) + S1[j][sl] * w1 if k0 != k1 else S0[j][sl]
+                        t = 1e-9 * np.maximum(np.abs(exp), 1.0)
+                        if name == "R" and pp.get("r_specials"):
+                            # see C07: with infinite / 1e300 samples only planes strictly between two centres are asserted
+                            if k0 == k1:
+                                mask = np.zeros_like(two_sided)
+                            sc = np.maximum(np.abs(S0[j][sl]), np.abs(S1[j][sl]))
+                            t = t + np.where(np.isfinite(sc), 1e-12 * sc, 0.0)
+                with np.errstate(all="ignore"):
+                    bad = mask & ~np.isnan(exp) & ~((g == exp) | (np.abs(g - exp) <= t))
                 if bad.any():
                     ij = tuple(np.argwhere(bad)[0])
                     v.append(f"level {l} box {lo2}..{hi2} field {name}: pixel {ij} = {g[ij]!r}, expected {exp[ij]!r} from "
